@@ -8,6 +8,7 @@ package mechanisms
 import (
 	"fmt"
 	"sort"
+	"strings"
 
 	"github.com/dadrus/heimdall/internal/zzverif/vf"
 )
@@ -94,7 +95,8 @@ func c17Endpoint(r *vf.Rand, u string) m {
 		e["headers"] = h
 	}
 
-	if r.Chance(25) {
+	if r.Chance(25) && !strings.Contains(u, "fail=") {
+		// (a failing endpoint with retry would spend give_up_after in every execution)
 		e["retry"] = m{"give_up_after": "1s", "max_delay": "100ms"}
 	}
 
